@@ -2091,6 +2091,7 @@ func (l *Loader) loadByContext(ctx context.Context, source DataSource, fetchItem
 	}
 
 	if shared {
+		verifYield("subgraph.follower.waiting", item)
 		select {
 		case <-item.loaded:
 		case <-ctx.Done():
@@ -2124,6 +2125,7 @@ func (l *Loader) loadByContext(ctx context.Context, source DataSource, fetchItem
 	ctx = httpclient.WithHTTPClientSizeHint(ctx, item.sizeHint)
 
 	defer l.singleFlight.Finish(item)
+	verifYield("subgraph.leader.loading", item)
 
 	// Perform the actual load
 	err := l.loadByContextDirect(ctx, source, headers, input, res)
